@@ -566,7 +566,9 @@ class DEVSSimulator(Simulator[TIME], Generic[TIME]):
                  **kwargs) -> SimEventInterface:
         """schedule a methodCall at a relative duration. The execution 
         time is thus simulator.simulator_time + delay."""
-        if delay < 0:
+        # compare with a zero of the delay's own type (a Duration cannot be
+        # compared with an int); this also refuses a delay that is nan
+        if not delay >= type(delay)(0):
             raise DSOLError("cannot schedule event in the past")
         return self.schedule_event(SimEvent(self._simulator_time + delay,
                  target, method, priority, **kwargs))
